@@ -11,7 +11,7 @@ ASSUMPTIONS = []
 def tie(rep, tier, rng, model_ok):
     q = tier == "quick"
     cases = taskgen.enum_shapes(4 if q else 6) + taskgen.gen(rng, 2500 if q else 50000)
-    taskprops.run_tasks(rep, "task-schedules", cases, relevant=("POLL-OVERLAP", "POLL-AFTER-END", "PANIC", "STUCK"))
+    taskprops.run_tasks(rep, "task-schedules", cases, relevant=("POLL-OVERLAP", "POLL-AFTER-END", "PANIC", "STUCK"), model_ok=model_ok)
     b = [simgen.gen_net(rng) for _ in range(200 if q else 5000)]
     simprops.run(rep, "C05", model_ok, [("handlers-on-threads", b, (2, 4, 8, 16), (oracles.o_harness, oracles.o_exactly_once), lambda c, o: True)],
                  "task level: concurrent wakers/runner/canceller schedules on the verbatim task.rs, oracle = at most one thread inside poll, no poll after the end; model level: message-passing benches on 2..16 worker threads must equal Sim.v, in which a model's handlers are sequential by construction")
